@@ -306,3 +306,29 @@ pub fn structural_sigma(f: &F) -> Vec<String> {
     }
     out
 }
+
+/// G6 templates (prefix, suffix) around one code point X, in the format's own keywords
+pub fn code_point_templates(f: &F, thorough: bool) -> Vec<(String, String)> {
+    let e = f.e;
+    let c = &e.compound;
+    let st = &e.statement;
+    let s = &e.sentence;
+    let mut v: Vec<(String, String)> = vec![
+        (String::new(), String::new()),
+        ("a".into(), String::new()),
+        (String::new(), "a".into()),
+        (e.atom.prefix_variable_independent.into(), String::new()),
+        (c.brackets_set_extension.0.into(), c.brackets_set_extension.1.into()),
+        (st.brackets.0.into(), format!("{}a{}", st.copula_inheritance, st.brackets.1)),
+        (String::new(), s.punctuation_judgement.into()),
+    ];
+    if thorough {
+        v.extend([
+            ("a".into(), "b".into()),
+            (format!("{}a{}", st.brackets.0, st.copula_inheritance), st.brackets.1.into()),
+            (format!("a{} {}", s.punctuation_judgement, s.truth_brackets.0), s.truth_brackets.1.into()),
+            (format!("{}{}{}", c.brackets.0, c.connecter_product, c.separator), c.brackets.1.into()),
+        ]);
+    }
+    v
+}
